@@ -58,6 +58,14 @@ def trace_specs(prop, tier, n_quick=8, ev_quick=1000, n_thorough=16, ev_thorough
     return specs
 
 
+def deep_specs(tier):
+    """very deep chains (ancestor relations over dozens of levels); validated with TraceLight.cfg (conformance of every
+    event and full state equality, without re-evaluating the invariants at this size)"""
+    if tier == "quick":
+        return [{"mix": "deep", "seed": SEED * 10 + k, "events": 0, "cfg": "TraceLight"} for k in range(2)]
+    return [{"mix": "deep", "seed": SEED * 10 + k, "events": 40, "cfg": "TraceLight", "extra": ["--depth", str(d)]} for k, d in enumerate([66, 80, 130, 200, 260])]
+
+
 def boundary_specs(tier):
     if tier == "quick":
         return [{"mix": "boundary", "seed": SEED * 100 + k, "events": 0} for k in range(3)]
@@ -72,7 +80,8 @@ def check_property(prop, tier):
         "exhaustive only up to the slot bound of the bundle configuration; beyond it coverage is by seeded random histories",
         "node arguments are the newest id of a slot; stale ids of recycled slots, ids of other arenas and detach/remove of removed ids are outside 'valid calls' and never generated",
     ]
-    bundle_cfgs = ["Gen_s4g1"] if tier == "quick" else ["Gen_s4g2", "Gen_s5g0"]
+    # histories breadth-first up to 4/5 slots + every ordered forest up to 7/8 nodes built by its canonical path
+    bundle_cfgs = ["Gen_s4g1", "GenShapes_k7"] if tier == "quick" else ["Gen_s4g2", "Gen_s5g0", "GenShapes_k8"]
 
     if prop in OUT_PROPS or prop in ("C16",):
         for m in (MC_QUICK if tier == "quick" else MC_THOROUGH):
@@ -85,6 +94,8 @@ def check_property(prop, tier):
         for cfg in bundle_cfgs:
             path, meta = ensure_bundles(cfg)
             for profile in ("debug", "release"):
+                if cfg.startswith("GenShapes") and profile == "release" and prop not in ("C01", "C03", "C04", "C05", "C12"):
+                    continue
                 b = build_harness(profile)
                 flags = ["--no-lookups"]
                 if prop != "C02":
@@ -143,8 +154,10 @@ def check_property(prop, tier):
     if prop in MIXES:
         b = build_harness("release" if prop in ("C05",) and SEED % 2 == 0 else "debug")
         specs = trace_specs(prop, tier)
-        if prop in ("C06", "C07", "C11", "C16", "C13"):
+        if prop in ("C06", "C07", "C11", "C16", "C13", "C04", "C05", "C08"):
             specs += boundary_specs(tier)
+        if prop in ("C02", "C05", "C09", "C01"):
+            specs += deep_specs(tier)
         r = run_traces(b, specs, prop)
         if prop in ("C06", "C07"):
             # the end of the generation counter again without debug assertions (a debug_assert can hide a reissue behind a panic)
@@ -154,7 +167,7 @@ def check_property(prop, tier):
         if prop == "C05":
             # and the same in the other build mode
             b2 = build_harness("debug" if b.endswith("release/itverif") else "release")
-            r = run_traces(b2, trace_specs(prop, tier, n_quick=4, n_thorough=8), prop + "-otherbuild")
+            r = run_traces(b2, trace_specs(prop, tier, n_quick=4, n_thorough=8) + boundary_specs(tier)[:2], prop + "-otherbuild")
             add_traces(v, r, "the same drivers in the other build mode (debug assertions on/off)")
     return v.finish()
 
@@ -401,6 +414,7 @@ def setup():
     build_harness("release")
     ensure_bundles("DETable")
     ensure_bundles("Gen_s4g1")
+    ensure_bundles("GenShapes_k7")
     for m in MC_QUICK:
         run_mc(m)
     print("setup ok")
